@@ -146,6 +146,10 @@ def judge(case, impl, model):
     real = case.get("mode") == "real"
     e2e = case["kind"] == "c15.sys"
     iouts, mouts = (impl or {}).get("outs"), (model or {}).get("outs")
+    if isinstance(impl, dict) and impl.get("err") in ("crash", "hang"):
+        v.problems.append(("crash", "the process %s while running this history: %s" % ("crashed" if impl.get("err") == "crash" else "hung", str(impl.get("stderr", ""))[:400]), -1))
+        v.crashed = True
+        return v
     if iouts is None or mouts is None or len(iouts) != len(case["ops"]) or len(mouts) != len(case["ops"]):
         v.problems.append(("corr", "no result: impl=%s model=%s" % (canon(impl)[:300], canon(model)[:300]), -1))
         return v
@@ -373,7 +377,8 @@ def main():
         for c, i, m in zip(cases, impls, models):
             v = judge(c, i, m)
             tries = 0
-            while (v.problems or v.unsafe) and any(o["op"] in ("sleep", "fireAll") for o in c["ops"]) and tries < 3 and ck.violations < 20:
+            # (a crash is an observation, not a timing accident: never re-run it away)
+            while (v.problems or v.unsafe) and not getattr(v, "crashed", False) and any(o["op"] in ("sleep", "fireAll") for o in c["ops"]) and tries < 3 and ck.violations < 20:
                 # timing based: re-run in isolation before believing it
                 tries += 1
                 i2, m2, c2 = run_both([{k_: v_ for k_, v_ in c.items()}], drv, mdl, slow=True)
@@ -448,4 +453,5 @@ def main():
         ck.violation("proof obligations of C15 no longer check: %s" % pr["failed"], {"theorems": pr.get("failed_theorems") or pr["failed"], "log": pr["log"][-3000:]}, tag="proof", no_input=True)
     ck.finish()
 
-main()
+if __name__ == "__main__":
+    main()
